@@ -61,7 +61,7 @@ def run(ctx: Ctx) -> None:
     from ahbicht.expressions.ahb_expression_evaluation import evaluate_ahb_expression_tree
 
     ctx.rule = ("trees from the condition parser, the AHB parser and the resolver (with packages/time conditions); evaluation results of random AHB expressions "
-                "under random content results incl. UNKNOWN outcomes; content results with None hints, empty dictionaries, with/without packages and id; key extracts; "
+                "under random content results incl. UNKNOWN outcomes; content results with None hints, empty dictionaries, with/without packages and id; key extracts (sanitised, unsanitised with repeated keys, after time-condition expansion, hand-made with repeats and numeric ties); "
                 "distinct = (class, dumped JSON)")
     ctx.coverage["generated_changed"] = extract.regenerate(["Schemas"])
     ok = ctx.lean_build(MODULES)
@@ -105,6 +105,21 @@ def run(ctx: Ctx) -> None:
                 add("extract", CategorizedKeyExtractSchema(), extract_categorized_keys_from_tree(p["lark"], sanitize=rng.random() < 0.5))
             except Exception:  # pylint:disable=broad-except
                 pass
+    from ahbicht.models.categorized_key_extract import CategorizedKeyExtract
+    for _ in range(ctx.pick(100, 1000)):
+        # extracts as the library produces them without sanitising (keys repeated, in scan order), and arbitrary hand-made ones
+        def keys(pool):
+            return [rng.choice(pool) for _ in range(rng.choice([0, 1, 2, 3, 5]))]
+        add("extract", CategorizedKeyExtractSchema(), CategorizedKeyExtract(
+            hint_keys=keys(["501", "502", "0501", "900"]), format_constraint_keys=keys(["901", "932", "934", "999"]), requirement_constraint_keys=keys(["1", "2", "01", "499", "2001"]),
+            package_keys=keys(["7P", "8P", "123P"]), time_condition_keys=keys(["UB1", "UB2", "UB3"])))
+        e = T.rand_expr(rng, rng.randint(2, 6), lambda r: ("cond", r.choice(["1", "2", "3", "501", "901", "902"])))
+        p = P.parse_cond(T.render(e, T.Style(rng, "rand", "rand", "rand")))
+        if "err" not in p:
+            add("extract", CategorizedKeyExtractSchema(), extract_categorized_keys_from_tree(p["lark"], sanitize=False))
+        r = P.resolve(rng.choice(["Muss [UB1] U [UB3]", "Muss [UB2] O [UB3]", "Muss [UB1] U [1]", "Muss ([UB1] O [2])[901] U [UB1]"]), resolve_packages=False, replace_time_conditions=True)
+        if "err" not in r:
+            add("extract", CategorizedKeyExtractSchema(), extract_categorized_keys_from_tree(r["lark"], sanitize=False))
     for _ in range(ctx.pick(100, 1000)):
         n = rng.randint(0, 4)
         cer = ContentEvaluationResult(
